@@ -170,7 +170,9 @@ class Ctx:
 
     def witness(self, key: str, what: str, inp, detail=None):
         """a concrete input on which the REAL code falsifies the property"""
-        self.witnesses.append({"key": key, "what": what, "input": inp, "detail": detail})
+        if sum(1 for w in self.witnesses if w["key"] == key) < 20:
+            self.witnesses.append({"key": key, "what": what, "input": inp, "detail": detail})
+        self.witness_total = getattr(self, "witness_total", 0) + 1
 
     # ---- Lean ------------------------------------------------------------
     def write_generated(self, name: str, body: str) -> str:
